@@ -99,7 +99,7 @@ def reader_layout(ctx, cfg, fn, agg_suffix, param='bytes'):
         if s['k'] == 'assign' and s['rv']['k'] == 'agg' and s['rv']['name'].endswith(agg_suffix) and s['rv']['ak'] == 'adt':
             agg = s['rv']
     if agg is None:
-        raise AnchorMissing('%s aggregate in %s' % (agg_suffix, fn))
+        return None      # the value is assembled elsewhere (a closure, a helper): this comparison cannot judge it
     k = b.param_index(param)
     out = {}
     for f, o in zip(agg['fields'], agg['ops']):
@@ -150,8 +150,8 @@ def rule_reader_writer(ctx, cfg='prod-all'):
     fn = 'bbsplus::proof::BBSplusPoKSignature::from_bytes'
     rl = reader_layout(ctx, cfg, fn, 'BBSplusPoKSignature')
     exp = {'Abar': ('0', '48'), 'Bbar': ('48', '96'), 'D': ('96', '144'), 'e_cap': ('144', '176'), 'r1_cap': ('176', '208'), 'r3_cap': ('208', '240')}
-    got = {k: v for k, v in rl.items() if k in exp}
-    yield Ob('RF-N', '%s#reader-offsets' % fn, got == exp, 'the reader takes each fixed field from the offset at which the writer puts it', fn, fact=got, expected=exp)
+    got = {k: v for k, v in (rl or {}).items() if k in exp}
+    yield Ob('RF-N', '%s#reader-offsets' % fn, (got == exp) if rl is not None else None, 'the reader takes each fixed field from the offset at which the writer puts it', fn, fact=got, expected=exp)
     wl = writer_layout(ctx, cfg, 'bbsplus::proof::BBSplusPoKSignature::to_bytes')
     off = 0
     wmap = {}
@@ -165,11 +165,11 @@ def rule_reader_writer(ctx, cfg='prod-all'):
              fn, fact=wmap, expected=exp)
     fn2 = 'bbsplus::signature::BBSplusSignature::from_bytes'
     rl2 = reader_layout(ctx, cfg, fn2, 'BBSplusSignature', param='data')
-    yield Ob('RF-N', '%s#reader-offsets' % fn2, rl2 == {'A': ('0', '48'), 'e': ('48', '80')}, 'signature octets = A (48) || e (32)', fn2,
+    yield Ob('RF-N', '%s#reader-offsets' % fn2, (rl2 == {'A': ('0', '48'), 'e': ('48', '80')}) if rl2 is not None else None, 'signature octets = A (48) || e (32)', fn2,
              fact=rl2, expected={'A': ('0', '48'), 'e': ('48', '80')})
     fn3 = 'bbsplus::commitment::BBSplusCommitment::from_bytes'
     rl3 = reader_layout(ctx, cfg, fn3, 'BBSplusCommitment')
-    yield Ob('RF-N', '%s#reader-offsets' % fn3, rl3.get('commitment') == ('0', '48'), 'commitment point is read from the first 48 octets', fn3, fact=rl3,
+    yield Ob('RF-N', '%s#reader-offsets' % fn3, (rl3.get('commitment') == ('0', '48')) if rl3 is not None else None, 'commitment point is read from the first 48 octets', fn3, fact=rl3,
              expected={'commitment': ('0', '48')})
 
 
@@ -880,7 +880,7 @@ def rule_cl03_signature_codec(ctx, cfg='prod-all'):
     if len(w) != 1 or len(r) != 1:
         raise AnchorMissing('CL03 signature codec functions')
     wl = writer_layout(ctx, cfg, w[0])
-    rl = reader_layout(ctx, cfg, r[0], 'CL03Signature')
+    rl = reader_layout(ctx, cfg, r[0], 'CL03Signature') or {}
 
     def parse(sx):
         if sx is None:
